@@ -30,6 +30,15 @@ def ms(ballots):
     return {k: v for k, v in d.items() if v != 0}
 
 
+def ms2(ballots):
+    """content multiset including scores"""
+    d = {}
+    for b in ballots:
+        k = (tuple(b.ranking) if b.ranking else (), frozenset((b.scores or {}).items()))
+        d[k] = d.get(k, F(0)) + b.weight
+    return {k: v for k, v in d.items() if v != 0}
+
+
 def fs(r):
     return tuple(frozenset(g) for g in r)
 
@@ -45,7 +54,12 @@ def check_remove(ctx, case):
     def img(b):
         return tuple(s2 for s2 in (frozenset(x for x in s if x not in rem) for s in (b.ranking or ())) if s2)
 
+    def simg(b):
+        return frozenset((c, v) for c, v in (b.scores or {}).items() if c not in rem)
+
+    has_scores = any(b.scores for b in bl)
     exp = {}
+    exp2 = {}
     emptied = 0
     for b in bl:
         i = img(b)
@@ -53,6 +67,8 @@ def check_remove(ctx, case):
             exp[i] = exp.get(i, F(0)) + b.weight
         else:
             emptied += 1
+        if i or simg(b):
+            exp2[(i, simg(b))] = exp2.get((i, simg(b)), F(0)) + b.weight
     merged = len({img(b) for b in bl if img(b)}) < len({b.ranking for b in bl if img(b)})
     nontriv = emptied > 0 and merged
     if nontriv:
@@ -72,6 +88,15 @@ def check_remove(ctx, case):
                     ctx.fail(f"{lab} raised {o.etype}", case, {"msg": str(o.exc)[:200]})
                     return
                 obs = o.value.ballots if kind == "profile" else o.value
+                if has_scores:
+                    ctx.count("remove_cand_scored_calls")
+                    got2 = {k: v for k, v in ms2(obs).items() if k[0] or k[1]}
+                    if got2 != exp2:
+                        ctx.fail(f"{lab}: with scored ballots, weight per resulting (ranking, scores) content differs from the summed "
+                                 "weight of the inputs mapping to it (a ballot that still has a ranking or scores lost its votes?)",
+                                 case, {"got": canon.multiset_c(got2), "exp": canon.multiset_c(exp2)})
+                        return
+                    continue
                 got = {k: v for k, v in ms(obs).items() if k}
                 if got != exp:
                     ctx.fail(f"{lab}: weight per resulting ranking differs from the summed weight of the inputs mapping to it",
@@ -295,7 +320,19 @@ def run(ctx):
             rem = ["not present"] + rnd.sample(cs, rnd.randint(0, len(cs)))
         else:
             rem = rnd.sample(cs, rnd.randint(1, len(cs)))
-        ctx.guard("remove", check_remove, ctx, {"kind": "remove", "profile": spec, "remove": rem, "as_str": rnd.random() < 0.3})
+        rspec = spec
+        if rnd.random() < 0.3:
+            # ballots carrying scores as well (partial ranking + wider scores, scores only, ranking only)
+            rspec = {"cands": list(cs), "ballots": [dict(b) for b in spec["ballots"]]}
+            for b in rspec["ballots"]:
+                t2 = rnd.random()
+                if t2 < 0.5:
+                    b["s"] = {c: canon.fs(F(rnd.choice([1, 2, 3]))) for c in rnd.sample(cs, rnd.randint(1, len(cs)))}
+                if t2 < 0.15:
+                    b["r"] = None
+                elif t2 < 0.3 and b.get("r"):
+                    b["r"] = b["r"][:1]
+        ctx.guard("remove", check_remove, ctx, {"kind": "remove", "profile": rspec, "remove": rem, "as_str": rnd.random() < 0.3})
         if i % 2 == 0:
             ctx.guard("add_missing", check_add_missing, ctx, {"kind": "add_missing", "profile": spec})
         if i % 2 == 1:
